@@ -133,9 +133,10 @@ class VRag(V):
 class VAssoc(V):
     """A dict with integer keys and 1-D array values in insertion order: keys (a list value) + values (a list of arrays), same count;
     the keys are pairwise distinct (obligation wherever the dict is built or extended)."""
-    def __init__(self, keys, vals):
+    def __init__(self, keys, vals, is_dict=True):
         self.keys = keys      # VList of int
         self.vals = vals      # VRag
+        self.is_dict = is_dict   # False: a plain list of (int, array) pairs (keys may repeat; append only)
 
 
 class VRagItems(V):
@@ -242,8 +243,8 @@ def parse_type(s):
             return ('blocks', args()[0])
         if name == 'rag':
             return ('rag', args()[0])
-        if name == 'assoc':
-            return ('assoc', args()[0])
+        if name in ('assoc', 'pairs'):
+            return (name, args()[0])
         if name in ('mat', 'flatmat', 'cube'):
             return (name, args()[0])
         if name == 'tuple':
